@@ -1,7 +1,7 @@
 """C20 — FIB requests and next-hop tracking stay in step with the RIB (structural clauses)."""
 import re
 
-from ..cfg import Renderer, walk, show, flat_guards, branches
+from ..cfg import Renderer, walk, show, flat_guards, branches, strip
 from ..facts import callee_names, short
 from ..sig import fn_tokens
 from ..util import view, crate_fns, root_name, expr_calls, expr_fields, expr_vars, loops
@@ -236,7 +236,8 @@ def run(prog, rep, tier):
                     r4.analysed(root_name(prog, k))
                     ok = False
                     for g, l, h in gs:
-                        if g[0] == "bin" and g[1] in ("Le", "Lt", "Gt", "Ge") and any(c.endswith("::get") for c in expr_calls(g)):
+                        same_place = g[0] == "bin" and e[0] == "bin" and any(show(strip(x_), 200) == show(strip(e[2]), 200) for x_ in (g[2], g[3]) if isinstance(x_, tuple))
+                        if g[0] == "bin" and g[1] in ("Le", "Lt", "Gt", "Ge") and (any(c.endswith("::get") for c in expr_calls(g)) or same_place):
                             c = g[3][1] if g[3][0] == "const" else None
                             # (*get <= 1) false  or (*get > 1) true
                             if (g[1] == "Le" and c == 1 and l == {"false"}) or (g[1] == "Gt" and c == 1 and l == {"true"}) or (g[1] == "Lt" and c == 2 and l == {"false"}) or (g[1] == "Ge" and c == 2 and l == {"true"}):
